@@ -15,10 +15,11 @@ def replay_with(f, post=None, check_imports=True):
     prop = w.get("prop", "C00").lower()
     tmp = materialise(files)
     try:
-        proj = rproject.Project(tmp, ropefolder=None)
+        proj = rproject.Project(tmp, ropefolder=None, **(op.get("prefs") or {}))
         try:
             changes = refops.perform(proj, op)
-            proj.do(changes)
+            if changes is not None:
+                proj.do(changes)
         except rex.RopeError as e:
             return dict(reproduced=False, signature="", detail="refused: %s" % e)
         except Exception as e:
